@@ -741,13 +741,25 @@ impl TryFrom<&mut Peekable<Lexer>> for ParserNode {
                                     lex.raw_token,
                                 ));
                             }
-                            PseudoType::Bltz | PseudoType::Bgtz => {
+                            PseudoType::Bltz => {
                                 let rs1 = lex.get_reg()?;
                                 let label = lex.get_label()?;
                                 return Ok(ParserNode::new_branch(
                                     With::new(BranchType::Blt, next_node.clone()),
                                     rs1,
                                     With::new(Register::X0, next_node.clone()),
+                                    label,
+                                    lex.raw_token,
+                                ));
+                            }
+                            // bgtz rs, label == blt x0, rs, label
+                            PseudoType::Bgtz => {
+                                let rs1 = lex.get_reg()?;
+                                let label = lex.get_label()?;
+                                return Ok(ParserNode::new_branch(
+                                    With::new(BranchType::Blt, next_node.clone()),
+                                    With::new(Register::X0, next_node.clone()),
+                                    rs1,
                                     label,
                                     lex.raw_token,
                                 ));
@@ -785,14 +797,15 @@ impl TryFrom<&mut Peekable<Lexer>> for ParserNode {
                                     lex.raw_token,
                                 ));
                             }
+                            // snez rd, rs == sltu rd, x0, rs
                             PseudoType::Snez => {
                                 let rd = lex.get_reg()?;
                                 let rs1 = lex.get_reg()?;
-                                return Ok(ParserNode::new_iarith(
-                                    With::new(IArithType::Sltiu, next_node.clone()),
+                                return Ok(ParserNode::new_arith(
+                                    With::new(ArithType::Sltu, next_node.clone()),
                                     rd,
+                                    With::new(Register::X0, next_node.clone()),
                                     rs1,
-                                    With::new(Imm::new(0), next_node.clone()),
                                     lex.raw_token,
                                 ));
                             }
@@ -805,13 +818,25 @@ impl TryFrom<&mut Peekable<Lexer>> for ParserNode {
                                     lex.raw_token,
                                 ));
                             }
-                            PseudoType::Bgez | PseudoType::Blez => {
+                            PseudoType::Bgez => {
                                 let rs1 = lex.get_reg()?;
                                 let label = lex.get_label()?;
                                 return Ok(ParserNode::new_branch(
                                     With::new(BranchType::Bge, next_node.clone()),
                                     rs1,
                                     With::new(Register::X0, next_node.clone()),
+                                    label,
+                                    lex.raw_token,
+                                ));
+                            }
+                            // blez rs, label == bge x0, rs, label
+                            PseudoType::Blez => {
+                                let rs1 = lex.get_reg()?;
+                                let label = lex.get_label()?;
+                                return Ok(ParserNode::new_branch(
+                                    With::new(BranchType::Bge, next_node.clone()),
+                                    With::new(Register::X0, next_node.clone()),
+                                    rs1,
                                     label,
                                     lex.raw_token,
                                 ));
